@@ -60,6 +60,7 @@ structure St where
   tree : List (String × String × List Nat) := []
   snap : SnapB := {}
   prevBlns : List BlnB := []                -- balloons of the previous snapshot
+  initFree : Nat := 0
   initBlns : Option (List BlnB) := none     -- balloons right after configuration
   cacheView : List (String × String × String × Bool) := []   -- id, state, cpus, pending
   lastEv : List String := []
@@ -259,6 +260,7 @@ def step (st : St) (toks : List String) : St × List Issue :=
       | some ib =>
         if !errs.isEmpty then errs else
         let shape := fun (l : List BlnB) => (l.map fun b => (b.defn, b.cpus.length)).toArray.qsort (fun a b => a.1 < b.1 || (a.1 == b.1 && a.2 < b.2)) |>.toList
+        let errs := if s.free.length != st.initFree then errs ++ [s!"C09:idle-cpus-differ-from-pristine-at-quiescence idle now {s.free.length}, pristine {st.initFree}"] else errs
         if shape ib != shape s.blns then errs ++ [s!"C09:balloons-differ-from-pristine-at-quiescence now={shape s.blns} pristine={shape ib}"] else errs
       | none => errs
     report st errs
@@ -349,6 +351,7 @@ def step (st : St) (toks : List String) : St × List Issue :=
       | some c => if m != "-" then setCtr st { c with toldMems := m, rtMems := m } else st
       | none => st) st
     (st, early)
+  | ["VP", _] => (st, [])
   | ["V", view] =>
     let cv := if view == "-" then [] else (view.splitOn ",").filterMap fun e => match e.splitOn ":" with
       | [id, stt, res, pend] => some (id, stt, cpusOfRes res, pend == "1")
@@ -393,7 +396,7 @@ def step (st : St) (toks : List String) : St × List Issue :=
     let st : St := { st with dropped := st.dropped.filter (fun (id : String) => !(st.snap.members.any (fun m => m.1 == id))) }
     let (st, is) := if down then (st, []) else report st (checkState st)
     let st : St := { st with prevMembers := st.snap.members.map (fun (m : String × String × Nat × Bool) => m.1) }
-    let st := if st.initBlns.isNone then { st with initBlns := some st.snap.blns } else st
+    let st := if st.initBlns.isNone then { st with initBlns := some st.snap.blns, initFree := st.snap.free.length } else st
     -- C13: a rejected configuration update leaves balloons and membership as they were
     let (st, is) := if st.expectUnchanged then
         let same := st.prevBlns.length == st.snap.blns.length && st.prevBlns.all (fun b =>
